@@ -1,12 +1,83 @@
 /-
   C18 — Parallel execution gives the sequential result, in order.
-  Property theorems only; helper lemmas live in ASV/Proofs/Parallel.lean.
+  Property theorems only; helper lemmas live in ASV/Proofs/Parallel*.lean.
+
+  Every statement is for all call functions `f` (any argument, error and result types), all
+  argument lists (any batch size), all worker counts `≥ 2` (given or defaulted from the config),
+  and all schedules in the stated class: `Complete m sched` = every one of the `m` chunks
+  completes exactly once, in ANY relative order (`Perm`), nothing else happens; `rest` = whatever
+  the scheduler does afterwards.  No bound on anything.
 -/
-import ASV.Proofs.Parallel
+import ASV.Proofs.ParallelMain
 namespace ASV.C18
 open ASV ASV.Parallel
 
 variable {α ε β : Type}
+
+/-- **the property, success case**: for every number of workers, batch size and relative
+    completion order, `parallel_function` returns exactly the list the sequential loop returns —
+    same values, same order, same length, no `None` left in it -/
+theorem parallel_eq_sequential (configCpus cpus : Nat) (f : α → Except ε β) (args : List α)
+    (hasTimeout : Bool) (sched rest : List Event)
+    (hk : 2 ≤ resolveCpus configCpus cpus)
+    (hc : Complete (numChunks args.length (resolveCpus configCpus cpus)) sched)
+    (l : List β) (hseq : sequential f args = .ok l) :
+    parallelFunction configCpus f args cpus hasTimeout (sched ++ rest) = .returned (l.map some) := by
+  have h1 : resolveCpus configCpus cpus ≠ 1 := by omega
+  have h0 : resolveCpus configCpus cpus ≠ 0 := by omega
+  simp only [parallelFunction, h1, h0, if_false]
+  exact (poolRun_complete f args _ (by omega) hasTimeout sched rest hc).1 l hseq
+
+/-- **the property, failure case**: if any call fails, the caller gets an exception — the
+    exception of one of the failing calls — never a list (shorter, reordered or otherwise) -/
+theorem failure_surfaces (configCpus cpus : Nat) (f : α → Except ε β) (args : List α)
+    (hasTimeout : Bool) (sched rest : List Event)
+    (hk : 2 ≤ resolveCpus configCpus cpus)
+    (hc : Complete (numChunks args.length (resolveCpus configCpus cpus)) sched)
+    (hfail : ∃ a ∈ args, ∃ e, f a = .error e) :
+    ∃ e, parallelFunction configCpus f args cpus hasTimeout (sched ++ rest) = .raised (.task e) ∧
+      ∃ a ∈ args, f a = .error e := by
+  have h1 : resolveCpus configCpus cpus ≠ 1 := by omega
+  have h0 : resolveCpus configCpus cpus ≠ 0 := by omega
+  simp only [parallelFunction, h1, h0, if_false]
+  cases hseq : sequential f args with
+  | error e₀ => exact (poolRun_complete f args _ (by omega) hasTimeout sched rest hc).2 e₀ hseq
+  | ok l =>
+    obtain ⟨a, ha, e, hfa⟩ := hfail
+    rw [← comprehension_eq_sequential] at hseq
+    obtain ⟨b, hb⟩ := comprehension_ok_all f args l hseq a ha
+    rw [hfa] at hb
+    cases hb
+
+/-- a deadline that passes while work is outstanding surfaces as the time-out error, whatever
+    completed before it (in whatever order) and whatever happens after it -/
+theorem timeout_surfaces (configCpus cpus : Nat) (f : α → Except ε β) (args : List α)
+    (pre post : List Event)
+    (hk : 2 ≤ resolveCpus configCpus cpus)
+    (hdone : ∀ e ∈ pre, e.isDone = true)
+    (hvalid : ∀ i ∈ doneIdxs pre, i < numChunks args.length (resolveCpus configCpus cpus))
+    (hfew : pre.length < numChunks args.length (resolveCpus configCpus cpus)) :
+    parallelFunction configCpus f args cpus true (pre ++ .timeout :: post) = .raised .timeout := by
+  have h1 : resolveCpus configCpus cpus ≠ 1 := by omega
+  have h0 : resolveCpus configCpus cpus ≠ 0 := by omega
+  simp only [parallelFunction, h1, h0, if_false]
+  exact poolRun_interrupted f args _ (by omega) true pre post .timeout .timeout hdone hvalid hfew
+    (Or.inl ⟨rfl, rfl, rfl⟩)
+
+/-- a worker process found dead while work is outstanding surfaces as an error, with or without
+    a deadline (the repaired `_await_pool_results`; the unrepaired code blocks here, defect D25) -/
+theorem worker_death_surfaces (configCpus cpus : Nat) (f : α → Except ε β) (args : List α)
+    (hasTimeout : Bool) (pre post : List Event) (w : Nat)
+    (hk : 2 ≤ resolveCpus configCpus cpus)
+    (hdone : ∀ e ∈ pre, e.isDone = true)
+    (hvalid : ∀ i ∈ doneIdxs pre, i < numChunks args.length (resolveCpus configCpus cpus))
+    (hfew : pre.length < numChunks args.length (resolveCpus configCpus cpus)) :
+    parallelFunction configCpus f args cpus hasTimeout (pre ++ .died w :: post) = .raised .workerDied := by
+  have h1 : resolveCpus configCpus cpus ≠ 1 := by omega
+  have h0 : resolveCpus configCpus cpus ≠ 0 := by omega
+  simp only [parallelFunction, h1, h0, if_false]
+  exact poolRun_interrupted f args _ (by omega) hasTimeout pre post (.died w) .workerDied hdone hvalid
+    hfew (Or.inr ⟨w, rfl, rfl⟩)
 
 /-- with one cpu (given, or defaulted from the config) `parallel_function` is the plain
     sequential loop whatever the scheduler would have done and whatever timeout was given -/
@@ -15,5 +86,52 @@ theorem cpus_one_ignores_pool (configCpus cpus : Nat) (f : α → Except ε β) 
     parallelFunction configCpus f args cpus hasTimeout evs = sequentialOutcome f args := by
   simp only [parallelFunction, h, if_true, sequentialOutcome, comprehension_eq_sequential]
   rfl
+
+/-- `parallel_execute` (no single-cpu shortcut: any worker count `≥ 1`): the return codes come
+    back in command order; a failing `child_process` surfaces as its exception -/
+theorem execute_eq_sequential (configCpus cpus : Nat) (runner : α → Except ε Int) (commands : List α)
+    (hasTimeout : Bool) (sched rest : List Event)
+    (hk : 1 ≤ resolveCpus configCpus cpus)
+    (hc : Complete (numChunks commands.length (resolveCpus configCpus cpus)) sched) :
+    (∀ codes, sequential runner commands = .ok codes →
+      parallelExecute configCpus runner commands cpus hasTimeout (sched ++ rest) =
+        .returned (codes.map some)) ∧
+    (∀ e₀, sequential runner commands = .error e₀ →
+      ∃ e, parallelExecute configCpus runner commands cpus hasTimeout (sched ++ rest) = .raised (.task e) ∧
+        ∃ c ∈ commands, runner c = .error e) := by
+  have h0 : resolveCpus configCpus cpus ≠ 0 := by omega
+  simp only [parallelExecute, h0, if_false]
+  exact poolRun_complete runner commands _ (by omega) hasTimeout sched rest hc
+
+/-! ### non-vacuity: concrete batches, schedules and outcomes -/
+
+/-- nine calls on two workers: chunks of two, five chunks -/
+example : numChunks 9 2 = 5 := by decide
+/-- chunks completing in the order 4,0,3,1,2 form a complete schedule -/
+example : Complete 5 [.done 4, .done 0, .done 3, .done 1, .done 2] :=
+  ⟨by decide, List.isPerm_iff.mp (by decide)⟩
+/-- … and the results still come back in argument order -/
+example : parallelFunction 1 (fun (n : Nat) => (Except.ok (n * 10) : Except String Nat))
+    [1, 2, 3, 4, 5, 6, 7, 8, 9] 2 false [.done 4, .done 0, .done 3, .done 1, .done 2] =
+    .returned [some 10, some 20, some 30, some 40, some 50, some 60, some 70, some 80, some 90] := by
+  decide
+/-- two failing calls (3 and 8): the chunk that completes first decides which error is raised;
+    sequentially it would be call 3's -/
+example : parallelFunction 1 (fun (n : Nat) => if n = 3 ∨ n = 8 then Except.error n else Except.ok n)
+    [1, 2, 3, 4, 5, 6, 7, 8, 9] 2 false [.done 3, .done 0, .done 4, .done 1, .done 2] =
+    (.raised (.task 8) : Outcome Nat Nat) := by decide
+example : sequentialOutcome (fun (n : Nat) => if n = 3 ∨ n = 8 then Except.error n else Except.ok n)
+    [1, 2, 3, 4, 5, 6, 7, 8, 9] = (.raised (.task 3) : Outcome Nat Nat) := by decide
+/-- a deadline after three of five chunks; a dead worker after one; an incomplete schedule blocks -/
+example : parallelFunction 1 (fun (n : Nat) => (Except.ok n : Except String Nat))
+    [1, 2, 3, 4, 5, 6, 7, 8, 9] 2 true [.done 1, .done 0, .done 2, .timeout, .done 3, .done 4] =
+    .raised .timeout := by decide
+example : parallelFunction 1 (fun (n : Nat) => (Except.ok n : Except String Nat))
+    [1, 2, 3, 4, 5, 6, 7, 8, 9] 2 false [.done 1, .died 0, .done 0, .done 2, .done 3] =
+    .raised .workerDied := by decide
+example : parallelFunction 1 (fun (n : Nat) => (Except.ok n : Except String Nat))
+    [1, 2, 3, 4, 5, 6, 7, 8, 9] 2 false [.done 1, .done 0, .done 2, .done 3] = .blocked := by decide
+/-- the config default is used when no cpu count is given -/
+example : resolveCpus 4 0 = 4 ∧ resolveCpus 4 2 = 2 := by decide
 
 end ASV.C18
